@@ -136,16 +136,17 @@ Unit(meth, tag, body, amb, clean, nxt) ==
   [st |-> "msg", nxt |-> nxt,
    entry |-> [meth |-> meth, tag |-> tag, body |-> body, amb |-> amb, clean |-> clean]]
 
-\* a message with nothing unusual: a conforming server is expected to serve it (anti-vacuity only)
-Clean(m) ==
+\* a message with nothing unusual: a conforming server is expected to serve it (anti-vacuity
+\* only).  fr = Frame(m), chunkOK = its chunked body (if any) parsed without any leniency.
+Clean(m, fr, chunkOK) ==
   /\ m.ver = "1.1" /\ m.host = "ok" /\ m.le = "crlf"
   /\ \A i \in 1..Len(m.hdrs) :
        /\ m.hdrs[i][3] = "crlf"
        /\ m.hdrs[i][1] = "CL" => m.hdrs[i][2] \in {"exact", "short", "zero"}
        /\ m.hdrs[i][1] = "TE" => m.hdrs[i][2] = "chunked"
-  /\ ~Frame(m).amb
-  /\ Frame(m).kind = "chunked" =>
-       /\ ChunkParse(m.body).st = "ok"
+  /\ ~fr.amb
+  /\ fr.kind = "chunked" =>
+       /\ chunkOK
        /\ \A j \in 1..Len(m.body) : m.body[j][2] \in {"ok", "ext", "smugdata"}
 
 RECURSIVE NextUnit(_, _, _)
@@ -154,18 +155,18 @@ NextUnit(p, i, j) ==
   ELSE IF j = 0 THEN
     LET m == p[i]  fr == Frame(m)  n == Len(m.body)  tag == <<"m", i, 0>> IN
     CASE fr.kind = "none" ->
-           Unit(m.meth, tag, <<>>, fr.amb, Clean(m), Adv(p, i, 0))
+           Unit(m.meth, tag, <<>>, fr.amb, Clean(m, fr, TRUE), Adv(p, i, 0))
       [] fr.kind = "fixed" ->
            IF fr.cover <= n
-           THEN Unit(m.meth, tag, Pieces(i, 1, fr.cover), fr.amb, Clean(m), Adv(p, i, fr.cover))
+           THEN Unit(m.meth, tag, Pieces(i, 1, fr.cover), fr.amb, Clean(m, fr, TRUE), Adv(p, i, fr.cover))
            ELSE IF i + 1 <= Len(p)
-           THEN Unit(m.meth, tag, Pieces(i, 1, n) \o << <<"m", i + 1, 0>> >>, fr.amb, Clean(m), <<i + 2, 0>>)
+           THEN Unit(m.meth, tag, Pieces(i, 1, n) \o << <<"m", i + 1, 0>> >>, fr.amb, Clean(m, fr, TRUE), <<i + 2, 0>>)
            ELSE Stop                                    \* body never completes
       [] fr.kind = "chunked" ->
            LET cp == ChunkParse(m.body) IN
            IF cp.st = "ok"
            THEN Unit(m.meth, tag, [x \in 1..Len(cp.data) |-> <<"c", i, cp.data[x]>>],
-                     fr.amb \/ cp.amb, Clean(m), Adv(p, i, cp.used))
+                     fr.amb \/ cp.amb, Clean(m, fr, ~cp.amb), Adv(p, i, cp.used))
            ELSE Stop                                    \* malformed / truncated chunked body
       [] OTHER -> Stop                                  \* invalid framing: reject, close
   ELSE
@@ -190,7 +191,6 @@ Allowed(p) == CutAmb(RFCSeq(p))
 CONSTANTS PipelineIds, PL(_)
 VARIABLES pid, pos, dispatched, closed, resp
 vars == <<pid, pos, dispatched, closed, resp>>
-pl == PL(pid)
 
 Init == /\ pid \in PipelineIds /\ pos = <<1, 0>> /\ dispatched = <<>>
         /\ closed = FALSE /\ resp = <<>>
@@ -199,7 +199,7 @@ Init == /\ pid \in PipelineIds /\ pos = <<1, 0>> /\ dispatched = <<>>
 \* an ambiguous one is the last on this connection
 ServeNext ==
   /\ ~closed
-  /\ LET u == NextUnit(pl, pos[1], pos[2]) IN
+  /\ LET u == NextUnit(PL(pid), pos[1], pos[2]) IN
        /\ u.st = "msg"
        /\ dispatched' = Append(dispatched, u.entry)
        /\ pos' = u.nxt
@@ -218,22 +218,32 @@ Next == ServeNext \/ Reject \/ StopReading
 Spec == Init /\ [][Next]_vars
 
 \* ------------------------------------------------------------ properties
-PrefixInv == IsPrefixOf(dispatched, RFCSeq(pl))
-AllowedInv == IsPrefixOf(dispatched, Allowed(pl))
+\* (written with LET so that TLC evaluates PL(pid) and the RFC sequence once per state)
+PrefixInv  == IsPrefixOf(dispatched, RFCSeq(PL(pid)))
+AllowedInv == IsPrefixOf(dispatched, Allowed(PL(pid)))
 NoDispatchAfterAmbiguous ==
   [][dispatched' # dispatched => (dispatched = <<>> \/ ~Last(dispatched).amb)]_vars
 RespShape == \A i \in 1..Len(resp) : resp[i] = "err" => i = Len(resp) /\ closed
 
-\* sanity of the reference itself
-RefSane ==
-  LET s == RFCSeq(pl) IN
+\* sanity of the reference itself on pipeline p with s = RFCSeq(p)
+RefSaneOf(p, s) ==
   /\ \A a, b \in 1..Len(s) : a < b =>                      \* tags strictly advance along the wire
         \/ s[a].tag[2] < s[b].tag[2]
         \/ s[a].tag[2] = s[b].tag[2] /\ s[a].tag[3] < s[b].tag[3]
   /\ \A a \in 1..Len(s) : \A x \in 1..Len(s[a].body) :      \* body pieces lie on the wire
         LET pc == s[a].body[x] IN
-          /\ pc[2] \in 1..Len(pl)
-          /\ pc[1] \in {"e", "c"} => pc[3] \in 1..Len(pl[pc[2]].body)
-  /\ \A i \in 1..Len(pl) :                                  \* CL together with TE is never "clean"
-        (Vals(pl[i], "CL") # <<>> /\ Vals(pl[i], "TE") # <<>>) => ~Clean(pl[i]) /\ Frame(pl[i]).amb
+          /\ pc[2] \in 1..Len(p)
+          /\ pc[1] \in {"e", "c"} => pc[3] \in 1..Len(p[pc[2]].body)
+  /\ \A i \in 1..Len(p) :                                  \* CL together with TE is always ambiguous
+        (Vals(p[i], "CL") # <<>> /\ Vals(p[i], "TE") # <<>>) => Frame(p[i]).amb
+  /\ \A a \in 1..Len(s) : s[a].clean => ~s[a].amb          \* clean messages are never ambiguous
+RefSane == LET p == PL(pid) IN RefSaneOf(p, RFCSeq(p))
+
+\* everything in one pass
+AllInv ==
+  LET p == PL(pid)  s == RFCSeq(p)  a == CutAmb(s) IN
+  /\ IsPrefixOf(dispatched, s)                              \* PrefixInv
+  /\ IsPrefixOf(dispatched, a)                              \* AllowedInv
+  /\ RespShape
+  /\ (dispatched = <<>> /\ ~closed) => RefSaneOf(p, s)
 =============================================================================
